@@ -86,6 +86,11 @@ CHECKS = {
    note="Trusted: std's DefaultHasher as the fixed hasher. The pool is finite; payloads outside it are not covered.",
    technique=TECH+"all pairs and triples of a finite value pool, oracle = equivalence + hash-coherence laws",
    ref="3.18"),
+ "C19": dict(
+   text="A crate is generated that applies the real proc macros of /repo to an exhaustively enumerated family of definitions, compiled against /repo's working tree and run: #[derive(Iden)] and #[derive(IdenStatic)] enums and unit structs for every valid type name built from <= 2 (quick) / 3 (thorough) segments of {Ab, ABC, A, a1, 9, _, b} plus spellings around the special `Table` variant, every such name as a variant; single-variant enums (so the per-type fast-path predicate is decided by one name) for every rename string over an 11-symbol alphabet (both quote characters, backtick, bracket, space, dash, non-ASCII) up to length 2 / 3 in both attribute forms; container renames (Table) and unit-struct renames; method attributes; flattened named / unnamed / two-level variants; #[enum_def] with every prefix / suffix / table_name combination. Every value reports Iden::to_string, Iden::prepare under 4 quote pairs and IdenStatic::as_str. Oracle: independently written snake_case (heck's documented word-boundary rules), attribute overrides, and general identifier quoting (the generated fast path must equal it). Renames containing braces are compiled in a separate crate so a compile failure is attributable.",
+   note="Trusted: the reference snake_case (40 lines) and the enumeration of definition shapes. The exploration is of the space of programs (type definitions); each is run once. One genuine defect repaired by a fix: commit.",
+   technique=TECH+"exhaustive enumeration of type definitions compiled with the real proc macros, oracle = reference naming + quoting rules",
+   ref="3.19"),
 }
 
 NOT_YET = {
